@@ -35,6 +35,8 @@ static MPT_STRUCT(node) *make_global(const MPT_STRUCT(path) *dest)
 	MPT_STRUCT(node) *n;
 	
 	if (!endreg) {
+		/* text values refer to character type info, cleanup must run before the type tables are released */
+		(void) mpt_type_traits('c');
 		atexit(clear_global);
 		endreg = 1;
 	}
